@@ -17,7 +17,7 @@ LANGS = {'c99': ['-x', 'c', '-std=c99'], 'gnu17': ['-x', 'c', '-std=gnu17'], 'c+
 
 def is_c(lang):
     return not lang.startswith('c++')
-COMMON = ['-fsyntax-only', '-ferror-limit=0', '-Werror=macro-redefined', '-Werror=visibility', '-Wno-zero-length-array', '-Wno-c11-extensions',
+COMMON = ['-fsyntax-only', '-ferror-limit=0', '-Werror=macro-redefined', '-Werror=visibility', '-Wundef', '-Wno-zero-length-array', '-Wno-c11-extensions',
           '-Wno-c99-extensions', '-Wno-extern-c-compat']
 
 
@@ -302,6 +302,41 @@ def run(tier, res, seed):
                               'include/%s: does not compile on its own as %s: %s' % (name, lang, ds[0][1] if ds else err[-300:]))
             else:
                 res.ok()
+    # an identifier evaluated in #if while undefined, although another public header defines it: what the header means
+    # then depends on whether that other header came first
+    project_macros = set()
+    defined_in = {}
+    for h in hs:
+        text = open(os.path.join(build.REPO, 'include', h), errors='replace').read()
+        text = re.sub(r'/\*.*?\*/', ' ', text, flags=re.S)
+        for m in re.finditer(r'^[ \t]*#[ \t]*define[ \t]+(\w+)', text, re.M):
+            defined_in.setdefault(m.group(1), set()).add(h)
+    for h in hs:
+        ms, _ = macros_of(h, 'c99')
+        project_macros |= set(ms or ())
+    project_macros |= set(defined_in)
+    # a header that #undef-s a macro which another public header defines (and which it may itself have received from that
+    # header behind `#pragma once`) takes it away from every header included later: a three-header effect that no pair shows
+    for h in hs:
+        text = open(os.path.join(build.REPO, 'include', h), errors='replace').read()
+        text = re.sub(r'/\*.*?\*/', ' ', text, flags=re.S)
+        for m in re.finditer(r'^[ \t]*#[ \t]*undef[ \t]+(\w+)', text, re.M):
+            others = sorted(o for o in defined_in.get(m.group(1), ()) if o != h)
+            res.count('#undef directives in public headers inspected')
+            if others:
+                res.violation('undef-of-foreign-macro:%s:%s' % (base(h), m.group(1)),
+                              'include/%s: #undef %s removes a macro that include/%s defines: a header included after both that relies '
+                              'on it (the definition sits behind an include guard and is not repeated) silently changes meaning'
+                              % (h, m.group(1), others[0]))
+            else:
+                res.ok()
+    with ThreadPoolExecutor(16) as ex:
+        for name, lang, rc, err in ex.map(compile_unit, jobs):
+            for m in re.finditer(r"warning: '(\w+)' is not defined, evaluates to 0", err or ''):
+                if m.group(1) in project_macros:
+                    res.violation('undef-in-if:%s:%s' % (base(name), m.group(1)),
+                                  'include/%s (%s): #if evaluates %s while it is undefined, but another public header defines it: the '
+                                  'meaning of this header depends on which headers were included before it' % (name, lang, m.group(1)))
     with ThreadPoolExecutor(16) as ex:
         for h, (fa, err) in zip(hs, ex.map(lambda h: alone_facts(h, d), hs)):
             if fa is None:
